@@ -159,6 +159,13 @@ func evalNameArray(node *jparse.NameNode, data reflect.Value, env *environment) 
 			return undefined, err
 		}
 
+		if seq, ok := asSequence(v); ok {
+			// A nested array yields a sequence of its own matches.
+			// Splice them in: sequences never nest.
+			results.values = append(results.values, seq.values...)
+			continue
+		}
+
 		if v.IsValid() && v.CanInterface() {
 			results.Append(v.Interface())
 		}
